@@ -30,7 +30,7 @@ ASSUMPTIONS = [
 BOUNDS = {
     # (threads, body, granularity, preemption bound)
     'quick': [(2, 'create', 'line+ctor-opcode', 1), (2, 'create-close-create', 'line', 1), (2, 'sub-vs-plain', 'line+ctor-opcode', 1)],
-    'thorough': [(2, 'create', 'line+ctor-opcode', 2), (2, 'create', 'line', 3), (2, 'create-close-create', 'line+ctor-opcode', 2),
+    'thorough': [(2, 'create', 'line+ctor-opcode', 2), (2, 'create', 'line', 3), (2, 'create-close-create', 'line', 2),
                  (3, 'create', 'line', 2), (3, 'create', 'line+ctor-opcode', 1), (2, 'sub-vs-plain', 'line+ctor-opcode', 2),
                  (2, 'plain-vs-sub', 'line', 2)],
 }
